@@ -184,7 +184,7 @@ func init() {
 		default:
 			fatal("unknown rendering %q", rendering)
 		}
-		ev := J{"op": "ecdsa-accept", "curve": curve, "class": class, "rendering": rendering, "r": ints(rb), "s": ints(sb), "sig": ints(sig), "res": "n/a",
+		ev := J{"op": "ecdsa-accept", "curve": curve, "class": class, "rendering": rendering, "r": ints(rb), "s": ints(sb), "sig": ints(sig), "res": "n/a", "resd": "n/a",
 			"exactvalid": stdVerify(alg, &key.PublicKey, msg, exact)}
 		if p := guard(func() {
 			v, err := cose.NewVerifier(cose.Algorithm(alg), &key.PublicKey)
@@ -193,6 +193,9 @@ func init() {
 				return
 			}
 			ev["res"] = errClass(v.Verify(msg, sig))
+			if dv, ok := v.(cose.DigestVerifier); ok {
+				ev["resd"] = errClass(dv.VerifyDigest(h(msg), sig))
+			}
 		}); p != "" {
 			ev["res"] = "panic"
 		}
